@@ -74,15 +74,19 @@ def strategy(draw, tier="quick"):
     na = draw(st.sampled_from([3, 8, 9, 10, 12]))
     case = {"fmt": fmt, "nf": nf, "na": na, "cell": _ck(fmt, draw(st.sampled_from([None, "ortho", "tric"]))),
             "seed": draw(st.integers(0, 2))}
+    if fmt == "dcd" and case["cell"] != "tric" and draw(st.integers(0, 2)) == 0:
+        case["dcd_fixed"] = True        # fixed atoms as CHARMM / NAMD store them (later frames hold the free atoms only)
     if fmt == "trr" and draw(st.booleans()):
         case["trr_vf"] = draw(st.sampled_from(["v", "f", "vf"]))       # velocity / force blocks as GROMACS writes them
     if draw(st.integers(0, 2)) == 0:
         case["atoms"] = sorted(set(draw(st.lists(st.integers(0, na - 1), min_size=1, max_size=4))))
-    long_ = fmt != "arc" and draw(st.integers(0, 14 if fmt != "dtr" else 5)) == 0      # (dtr: a new frame file every 256 frames)
+    # (dtr: a new frame file every 256 frames; h5 / nc: storage chunks of ~136 frames at 40 atoms)
+    long_ = fmt != "arc" and draw(st.integers(0, 3 if fmt in ("h5", "nc") else 5 if fmt == "dtr" else 14)) == 0
     if long_:
         # a long file: more frames than an internal block / index page is likely to hold; positions around 256 and 512
-        case.update(nf=draw(st.sampled_from([513, 600])), na=3, seed=0, long=True)
-        if "atoms" in case:
+        # (3 or 40 atoms: HDF5 / NetCDF lay the frames out in storage chunks of ~64 kB, i.e. 1820 or 136 frames)
+        case.update(nf=draw(st.sampled_from([513, 600])), na=40 if fmt in ("h5", "nc") else draw(st.sampled_from([3, 40])), seed=0, long=True)
+        if "atoms" in case or (fmt in ("h5", "nc") and draw(st.booleans())):
             case["atoms"] = [0, 2]
     n = _nframes(case)
     nh = draw(st.sampled_from([1, 1, 2]))
@@ -188,7 +192,8 @@ def run_case(case):
         na_file = None
     else:
         c02._trim_cache()
-        fn, tr, _full = c02._file(fmt, case["nf"], case["na"], case["cell"], case["seed"], trr_vf=case.get("trr_vf"))
+        fn, tr, _full = c02._file(fmt, case["nf"], case["na"], case["cell"], case["seed"], trr_vf=case.get("trr_vf"),
+                                  dcd_fixed=case.get("dcd_fixed", False))
     atoms = case.get("atoms")
     with warnings.catch_warnings():
         warnings.simplefilter("ignore")
